@@ -1018,7 +1018,9 @@ def filtered_seq(self, f, st):
 
 def list_extend(self, st, lst, view):
     n0 = self.list_len(st, lst)
+    st.assume(n0 >= 0)          # lengths of heap lists are non-negative (invariant of the encoding)
     m = view.length
+    st.assume(m >= 0)
     ms = simp(m)
     if z3.is_int_value(ms) and ms.as_long() <= 6:
         for k in range(ms.as_long()):
